@@ -23,9 +23,9 @@ TuplesUpTo(S, n) == UNION {[1..m -> S] : m \in 0..n}
    line with expansion characters, empty and blank-only lines *)
 Alphabet ==
   {EofLine(k) : k \in 0..(MaxLines - 1)}
-  \cup {Ln(1, "eof", 0, 0, 0), Ln(0, "eof", 0, 0, 1)}
+  \cup {Ln(1, "eof", 0, 0, 0)}
   \cup {Ln(0, "shebang", 1, 0, 0), Ln(0, "other", 1, 0, 0), Ln(1, "other", 1, 0, 0), EmptyLine}
-  \cup (IF Rich THEN {Ln(1, "shebang", 1, 0, 0), Ln(0, "other", 2, 1, 0), Ln(1, "blank", 0, 0, 0),
+  \cup (IF Rich THEN {Ln(0, "eof", 0, 0, 1), Ln(1, "shebang", 1, 0, 0), Ln(0, "other", 2, 1, 0), Ln(1, "blank", 0, 0, 0),
                       Ln(2, "other", 1, 0, 0), Ln(2, "eof", 1, 0, 0), Ln(0, "other", 1, 0, 1),
                       Ln(2, "blank", 0, 0, 0), Ln(0, "open", 0, 0, 0)}
         ELSE {})
@@ -36,8 +36,8 @@ K1 == Leaf(Id(KPlain, 1, 1))
 K2 == Leaf(Id(KPlain, 1, 2))
 InLeaves == {Leaf(Id(KStage, 3, 1)), Leaf(Id(KStage, 4, 2)), Leaf(Id(KStage, 2, 2))}
             \cup (IF Rich THEN {Leaf(Id(KSDir, 4, 2))} ELSE {})
-OutLeaves == {Leaf(Id(KStdout, 0, 0)), Leaf(Id(KStage, 5, 7)), Leaf(Id(KFile, 0, 9)), Leaf(Id(KPlain, 0, 1))}
-             \cup (IF Rich THEN {Leaf(Id(KStage, 6, 8)), Leaf(Id(KSDir, 6, 8))} ELSE {})
+OutLeaves == {Leaf(Id(KStdout, 0, 0)), Leaf(Id(KStage, 5, 7)), Leaf(Id(KFile, 0, 9))}
+             \cup (IF Rich THEN {Leaf(Id(KPlain, 0, 1)), Leaf(Id(KStage, 6, 8)), Leaf(Id(KSDir, 6, 8))} ELSE {})
 Containers(P) ==
   {ListV(s) : s \in TuplesUpTo(P, 2)}
   \cup {DictV(<<>>, <<>>)} \cup {DictV(<<K1>>, <<a>>) : a \in P} \cup {DictV(<<K1, K2>>, <<a, b>>) : a, b \in P}
@@ -62,7 +62,8 @@ BlockCases(bb) ==
   IF bb[1] = "c"
   THEN {Case(<<b>> \o tl, ListV(<<>>), Leaf(Id(KStdout, 0, 0)), FALSE) : tl \in TuplesUpTo(Alphabet, MaxLines - 1)}
   ELSE IF b = Leaf(1)
-       THEN {Case(OneLine, i, DefaultOuts, td) : i \in Ins, td \in BOOLEAN}
+       THEN {Case(OneLine, i, DefaultOuts, FALSE) : i \in Ins}
+            \cup {Case(OneLine, i, DefaultOuts, TRUE) : i \in IF Rich THEN Ins ELSE {DefaultIns}}
        ELSE {Case(OneLine, DefaultIns, b, FALSE)}
             \cup {Case(OneLine, DefaultIns, o, FALSE) :
                     o \in {ListV(<<b>> \o tl) : tl \in TuplesUpTo(OutLeaves \cup Out1, 1)}
